@@ -597,6 +597,13 @@ pzgssvx(int_t nprocs, superlumt_options_t *superlumt_options, SuperMatrix *A,
 
 	if ( superlumt_options->lwork == -1 ) {
 	    superlu_memusage->total_needed = *info - A->ncol;
+	    /* a workspace query keeps nothing */
+	    Destroy_CompCol_Permuted(&AC);
+	    if ( A->Stype == SLU_NR ) {
+		Destroy_SuperMatrix_Store(AA);
+		SUPERLU_FREE(AA);
+	    }
+	    StatFree(&Gstat);
 	    return;
 	}
     }
